@@ -159,6 +159,24 @@ def wait_for(pred, timeout, step=0.02):
     return pred()
 
 
+def wait_progress(pred, progress, idle=60.0, cap=900.0, step=0.05):
+    """Waits until `pred()`; gives up only when `progress()` (any monotone counter: requests seen by
+    the CA, hook records, …) has not moved for `idle` seconds, or after `cap` seconds.  A busy machine
+    makes a run slow, not stuck: a fixed time-out would report slowness as a failure."""
+    t0 = last_t = time.time()
+    last = progress()
+    while time.time() - t0 < cap:
+        if pred():
+            return True
+        now = progress()
+        if now != last:
+            last, last_t = now, time.time()
+        elif time.time() - last_t > idle:
+            break
+        time.sleep(step)
+    return pred()
+
+
 def post_ops(log_path, cert_name=None):
     return [r for r in read_log(log_path) if r.get("kind") == "hook"
             and any(a == "type=post-operation" for a in r.get("args", []))]
@@ -183,7 +201,14 @@ def run_scenario(root, certs, accounts=None, ca_opts=None, rules=None, hook_exit
     if pre:
         pre(root, cfg)
     d = Daemon(cfg_path, env=env, extra_args=extra_args)
-    done = wait_for(lambda: len(post_ops(log)) >= n_postop or not d.alive(), timeout)
+    # `timeout` is the longest the run may go WITHOUT any sign of life (a request reaching the CA, a hook
+    # record); the whole run is capped at ten times that
+    def life():
+        try:
+            return len(ca.log) + os.path.getsize(log)
+        except OSError:
+            return len(ca.log)
+    done = wait_progress(lambda: len(post_ops(log)) >= n_postop or not d.alive(), life, idle=timeout, cap=10 * timeout)
     time.sleep(settle)
     rc = d.stop()
     obs = {"hooks": read_log(log), "ca": list(ca.log), "rc": rc, "stderr": d.stderr(),
